@@ -586,6 +586,20 @@ example :
 
 example : ∀ x ∈ demoOps, (4 : Nat) ∉ x.1 ∧ ∀ a ∈ x.2.addrs, a ∈ [0, 1, 2, 3, 4] := by decide
 
+/-- the demo history satisfies the hypotheses of the history theorems, so their conclusions
+hold for it: the final state is well formed and the rate did not fall -/
+example : WF [0, 1, 2, 3, 4] (run ⟨1, 1000⟩ demoStart demoOps) ∧
+    RateLe demoStart (run ⟨1, 1000⟩ demoStart demoOps) := by
+  have h := rate_monotone_run (U := [0, 1, 2, 3, 4]) (by decide) ⟨1, 1000⟩ demoOps
+    (construct_wf (U := [0, 1, 2, 3, 4]) (by decide) (rfl : construct 4 0 100 = .ok demoStart))
+    (by decide)
+  exact ⟨h.1, h.2.1⟩
+
+/-- the rate strictly rose over the demo history (rounding and the donation stay in the vault) -/
+example : (totalAssets demoStart + 1) * (totalShares (run ⟨1, 1000⟩ demoStart demoOps) + 1) <
+    (totalAssets (run ⟨1, 1000⟩ demoStart demoOps) + 1) * (totalShares demoStart + 1) := by decide
+
+
 def phantomState : State :=
   { sh := { OZ.Fungible.init 100 with supply := 100000000000000000003 },
     ast := { OZ.Fungible.init 100 with bal := fun a => if a = 4 then 10000000000000000000006 else 0 },
